@@ -1303,6 +1303,7 @@ func (in *inliner) expand(pk *packages.Package, file *ast.File, s inlineSiteT) (
 		}
 	}
 	var litEdits []srcEdit
+	retLits := map[types.Object]*ast.FuncLit{}
 	ai := 0
 	for _, fl := range fd.Type.Params.List {
 		names := fl.Names
@@ -1353,6 +1354,21 @@ func (in *inliner) expand(pk *packages.Package, file *ast.File, s inlineSiteT) (
 							}
 							litEdits = append(litEdits, srcEdit{in.off(cs.Pos()), in.off(cs.End()), "{ " + decl + in.litBody(lit, lbl) + "\n}" + in.lineDirective(cs.End())})
 						}
+						ai++
+						continue
+					}
+				}
+				// a literal with results that the helper only ever returns the result of (`return fn()`): its body
+				// stands for that return (see expandRetLit)
+				if lit.Type.Results != nil && lit.Type.Results.NumFields() > 0 && !hasLabel(lit.Body) && in.onlyReturned(hpk, fd, hpk.TypesInfo.Defs[nm]) {
+					named := false
+					for _, rf := range lit.Type.Results.List {
+						if len(rf.Names) > 0 {
+							named = true
+						}
+					}
+					if !named {
+						retLits[hpk.TypesInfo.Defs[nm]] = lit
 						ai++
 						continue
 					}
@@ -1551,7 +1567,7 @@ func (in *inliner) expand(pk *packages.Package, file *ast.File, s inlineSiteT) (
 	}
 	// with results, the deferred calls run after the result expressions have been evaluated and assigned: only the
 	// forms that assign the results to variables first can say that
-	if len(defers) > 0 && s.form != "stmt" && s.form != "assign" && s.form != "ifinit" && s.form != "hoist" {
+	if len(defers) > 0 && s.form != "stmt" && s.form != "assign" && s.form != "ifinit" && s.form != "hoist" && s.form != "tail" {
 		return "", false
 	}
 	deferredAt := func(pos token.Pos) string {
@@ -1562,6 +1578,97 @@ func (in *inliner) expand(pk *packages.Package, file *ast.File, s inlineSiteT) (
 			}
 		}
 		return strings.Join(calls, "; ")
+	}
+	// retLitOf: ret is `return fn(args)` with fn a parameter bound to a function literal of the call site
+	retLitOf := func(ret *ast.ReturnStmt) (*ast.FuncLit, []ast.Expr) {
+		if len(ret.Results) != 1 {
+			return nil, nil
+		}
+		call, ok := ret.Results[0].(*ast.CallExpr)
+		if !ok {
+			return nil, nil
+		}
+		id, ok := call.Fun.(*ast.Ident)
+		if !ok {
+			return nil, nil
+		}
+		if lit := retLits[hpk.TypesInfo.Uses[id]]; lit != nil {
+			return lit, call.Args
+		}
+		return nil, nil
+	}
+	type genRetFn func(exprs []string, results []ast.Expr, info *types.Info, body *ast.BlockStmt, retStmt *ast.ReturnStmt, isLast bool, dpos token.Pos) (string, bool)
+	// expandRetLit: the literal's body in place of `return fn(args)`: its parameters are bound to the arguments, each
+	// of its returns is rewritten like a return of the helper (text of the caller's file, so nothing is renamed)
+	expandRetLit := func(lit *ast.FuncLit, largs []ast.Expr, ret *ast.ReturnStmt, helperLast bool, gen genRetFn) (string, bool) {
+		decl := ""
+		k := 0
+		for _, lf := range lit.Type.Params.List {
+			ns := lf.Names
+			if len(ns) == 0 {
+				ns = []*ast.Ident{{Name: "_"}}
+			}
+			for _, ln := range ns {
+				if k >= len(largs) {
+					return "", false
+				}
+				a := largs[k]
+				if ln.Name == "_" {
+					decl += "_ = " + render(a.Pos(), a.End()) + "; "
+				} else {
+					decl += fmt.Sprintf("var %s %s = %s; _ = %s; ", ln.Name, in.text(lf.Type), render(a.Pos(), a.End()), ln.Name)
+				}
+				k++
+			}
+		}
+		if k != len(largs) {
+			return "", false
+		}
+		var litLast ast.Stmt
+		if n := len(lit.Body.List); n > 0 {
+			litLast = lit.Body.List[n-1]
+		}
+		fname := in.file(lit.Pos())
+		src := in.content(fname)
+		var es []srcEdit
+		okAll := true
+		ast.Inspect(lit.Body, func(m ast.Node) bool {
+			if fl, isLit := m.(*ast.FuncLit); isLit && fl != lit {
+				return false
+			}
+			lr, isRet := m.(*ast.ReturnStmt)
+			if !isRet {
+				return true
+			}
+			var exprs []string
+			for _, r := range lr.Results {
+				exprs = append(exprs, in.text(r))
+			}
+			t, okG := gen(exprs, lr.Results, pk.TypesInfo, lit.Body, lr, helperLast && ast.Stmt(lr) == litLast, ret.Pos())
+			if !okG {
+				okAll = false
+				return false
+			}
+			t = "{ " + t + " }"
+			if strings.Contains(t, "\n") {
+				t += in.lineDirective(lr.End())
+			}
+			es = append(es, srcEdit{in.off(lr.Pos()), in.off(lr.End()), t})
+			return false
+		})
+		if !okAll {
+			return "", false
+		}
+		a, b := in.off(lit.Body.Lbrace)+1, in.off(lit.Body.Rbrace)
+		body := applyEdits(src, a, es)
+		last := a
+		for _, e := range es {
+			if e.end > last {
+				last = e.end
+			}
+		}
+		body += string(src[last:b])
+		return decl + in.lineDirective(lit.Body.Lbrace) + body + "\n", true
 	}
 	var retOf func(n ast.Node)
 	bad := false
@@ -1585,22 +1692,25 @@ func (in *inliner) expand(pk *packages.Package, file *ast.File, s inlineSiteT) (
 				}
 			}
 			isLast := ast.Stmt(ret) == lastStmt
-			brk := ""
-			if !isLast {
-				brk = "; break " + label
-			}
-			var txt string
+			// genRet: the text that replaces one `return` — of the helper, or of a function literal the helper returns
+			// the result of — for this call site's form
+			genRet := func(exprs []string, results []ast.Expr, info *types.Info, body *ast.BlockStmt, retStmt *ast.ReturnStmt, isLast bool, dpos token.Pos) (string, bool) {
+				brk := ""
+				if !isLast {
+					brk = "; break " + label
+				}
+				var txt string
 			switch s.form {
 			case "stmt":
 				switch {
 				case len(exprs) == 0:
 					txt = ""
-				case len(ret.Results) == 1 && nres > 1:
+				case len(results) == 1 && nres > 1:
 					txt = strings.TrimSuffix(strings.Repeat("_, ", nres), ", ") + " = " + exprs[0]
 				default:
 					txt = strings.TrimSuffix(strings.Repeat("_, ", len(exprs)), ", ") + " = " + strings.Join(exprs, ", ")
 				}
-				if dq := deferredAt(ret.Pos()); dq != "" {
+				if dq := deferredAt(dpos); dq != "" {
 					if txt != "" {
 						txt += "; "
 					}
@@ -1618,12 +1728,27 @@ func (in *inliner) expand(pk *packages.Package, file *ast.File, s inlineSiteT) (
 				}
 			case "tail":
 				rs := s.stmt.(*ast.ReturnStmt)
-				if len(rs.Results) == 1 {
+				if dq := deferredAt(dpos); dq != "" {
+					// the results are evaluated, then the deferred calls run, then the function returns
+					if len(rs.Results) != 1 || len(exprs) != nres {
+						return "", false
+					}
+					var names []string
+					for i := range exprs {
+						rt, okT := in.typeString(sig.Results().At(i).Type(), pk, file)
+						if !okT {
+							return "", false
+						}
+						name := fmt.Sprintf("tˑ%d%s", i, suffix)
+						txt += fmt.Sprintf("var %s %s = %s; ", name, rt, exprs[i])
+						names = append(names, name)
+					}
+					txt += dq + "; return " + strings.Join(names, ", ")
+				} else if len(rs.Results) == 1 {
 					txt = "return " + strings.Join(exprs, ", ")
 				} else {
 					if len(exprs) != 1 {
-						bad = true
-						return false
+						return "", false
 					}
 					var ops []string
 					for _, r := range rs.Results {
@@ -1639,18 +1764,17 @@ func (in *inliner) expand(pk *packages.Package, file *ast.File, s inlineSiteT) (
 				if s.absorb {
 					nilness := ""
 					switch {
-					case len(ret.Results) == 1 && nres > 1:
+					case len(results) == 1 && nres > 1:
 						txt = lhsTxt + " = " + exprs[0]
 					case len(exprs) == nres:
 						txt = lhsTxt + " = " + strings.Join(exprs, ", ")
-						if len(ret.Results) == nres {
-							nilness = errNilness(hpk.TypesInfo, fd.Body, ret, ret.Results[s.errIdx])
+						if len(results) == nres {
+							nilness = errNilness(info, body, retStmt, results[s.errIdx])
 						}
 					default:
-						bad = true
-						return false
+						return "", false
 					}
-					if dq := deferredAt(ret.Pos()); dq != "" {
+					if dq := deferredAt(dpos); dq != "" {
 						txt += "; " + dq
 					}
 					switch nilness {
@@ -1674,15 +1798,14 @@ func (in *inliner) expand(pk *packages.Package, file *ast.File, s inlineSiteT) (
 					}
 					break
 				}
-				if len(ret.Results) == 1 && nres > 1 {
+				if len(results) == 1 && nres > 1 {
 					txt = strings.Join(tmps, ", ") + " = " + exprs[0]
 				} else if len(exprs) == nres {
 					txt = strings.Join(tmps, ", ") + " = " + strings.Join(exprs, ", ")
 				} else {
-					bad = true
-					return false
+					return "", false
 				}
-				if dq := deferredAt(ret.Pos()); dq != "" {
+				if dq := deferredAt(dpos); dq != "" {
 					txt += "; " + dq
 				}
 				if !isLast {
@@ -1691,13 +1814,12 @@ func (in *inliner) expand(pk *packages.Package, file *ast.File, s inlineSiteT) (
 				}
 			case "if", "for":
 				if len(exprs) != 1 {
-					bad = true
-					return false
+					return "", false
 				}
 				e := strings.TrimSpace(exprs[0])
 				isTrue, isFalse := false, false
-				if id, isId := ret.Results[0].(*ast.Ident); len(ret.Results) == 1 && isId {
-					if c, isC := hpk.TypesInfo.Uses[id].(*types.Const); isC && c.Parent() == types.Universe {
+				if id, isId := results[0].(*ast.Ident); len(results) == 1 && isId {
+					if c, isC := info.Uses[id].(*types.Const); isC && c.Parent() == types.Universe {
 						isTrue, isFalse = id.Name == "true", id.Name == "false"
 					}
 				}
@@ -1719,6 +1841,26 @@ func (in *inliner) expand(pk *packages.Package, file *ast.File, s inlineSiteT) (
 					txt += brk
 					usedLabel = true
 				}
+			}
+				return txt, true
+			}
+			var txt string
+			if lit, litArgs := retLitOf(ret); lit != nil {
+				// `return fn(args)` with fn bound to a function literal of the call site: the literal's body stands here,
+				// each of its returns becoming a return of the helper
+				t, okL := expandRetLit(lit, litArgs, ret, isLast, genRet)
+				if !okL {
+					bad = true
+					return false
+				}
+				txt = t
+			} else {
+				t, okG := genRet(exprs, ret.Results, hpk.TypesInfo, fd.Body, ret, isLast, ret.Pos())
+				if !okG {
+					bad = true
+					return false
+				}
+				txt = t
 			}
 			txt = "{ " + txt + " }"
 			if strings.Contains(txt, "\n") {
@@ -1847,6 +1989,37 @@ func (in *inliner) onlyCalledAsStmt(pk *packages.Package, fd *ast.FuncDecl, para
 		return true
 	})
 	return calls, ok
+}
+
+// onlyReturned: every use of the parameter in the helper's body is `return param(args…)`.
+func (in *inliner) onlyReturned(pk *packages.Package, fd *ast.FuncDecl, param types.Object) bool {
+	if param == nil {
+		return false
+	}
+	accounted := map[*ast.Ident]bool{}
+	n := 0
+	ast.Inspect(fd.Body, func(m ast.Node) bool {
+		if _, isLit := m.(*ast.FuncLit); isLit {
+			return false
+		}
+		if ret, ok := m.(*ast.ReturnStmt); ok && len(ret.Results) == 1 {
+			if call, isC := ret.Results[0].(*ast.CallExpr); isC && !call.Ellipsis.IsValid() {
+				if id, isId := call.Fun.(*ast.Ident); isId && pk.TypesInfo.Uses[id] == param {
+					accounted[id] = true
+					n++
+				}
+			}
+		}
+		return true
+	})
+	ok := n > 0
+	ast.Inspect(fd.Body, func(m ast.Node) bool {
+		if id, isId := m.(*ast.Ident); isId && pk.TypesInfo.Uses[id] == param && !accounted[id] {
+			ok = false
+		}
+		return true
+	})
+	return ok
 }
 
 // litBody: the statements of a parameterless, resultless function literal, as a block body: a `return` of the literal
